@@ -11,7 +11,7 @@ import (
 func init() {
 	register("C05", &ruleSet{
 		run:    runC05,
-		floors: map[string]int{"O1": 1, "O2": 1, "O3": 4, "O4": 4, "O5": 1},
+		floors: map[string]int{"O1": 1, "O2": 1, "O3": 4, "O4": 4, "O5": 1, "O6": 4},
 		explain: "Decides, from the SSA of every path, that (O1) each constructor of a limiter owning a limit and a strategy passes " +
 			"strategy.SetLimit(limit.EstimatedLimit()) on every path that returns the limiter; (O2) every call of the limit's OnSample on such a limiter " +
 			"is followed on every path, before return and with the limiter's exclusive mutex held throughout, by SetLimit(EstimatedLimit()) on the same " +
@@ -65,7 +65,9 @@ func runC05(p *Prog, l *Ledger) {
 	l.Rule("O3", "Strategy.SetLimit stores exactly max(1,arg) into its limit field on every path (or leaves it when already equal) and passes the same floored value to every share update")
 	l.Rule("O4", "enforced-limit fields of strategies are written only by their constructors and SetLimit")
 	l.Rule("O5", "every partition share is recomputed from the value it is given and from nothing else: UpdateLimit stores exactly max(1, ceil(float(total) x fraction)) (shared with C03/O2)")
+	l.Rule("O6", "share coverage (decided by the C03/O3 rules on the same tree): every selectable partition is given UpdateLimit(current total) in the constructor, in SetLimit and when added dynamically, in the critical section that publishes it; bin limits have no other writer")
 	l.NotCovered = []string{"which values the limit algorithm produces", "callers that change a SettableLimit directly (no completion runs)"}
+	importObligations(p, l, "C03", "O6", func(o *Obligation) bool { return o.Rule == "O3" })
 
 	owners := p.limiterOwners()
 	if len(owners) == 0 {
